@@ -5615,6 +5615,21 @@ class PyCdlib:
             # Rule 9
             raise pycdlibexception.PyCdlibInvalidInput('A Joliet path can only be specified for a Joliet ISO')
 
+        # The entries are added one namespace after the other.  Resolve the
+        # UDF and Joliet destinations up front, so that a name or a parent that
+        # is refused there is reported while nothing has been added yet.
+        symlink_bytearray = b''
+        if udf_symlink_path is not None and udf_target is not None:
+            self._check_udf_destination(utils.normpath(udf_symlink_path), False)
+
+            # Generate the bytearry representing the symlink; a target that
+            # cannot be represented is found out here.  We specifically do
+            # *not* normalize udf_target, since that potentially changes the
+            # meaning of what the user wanted.
+            symlink_bytearray = udfmod.symlink_to_bytes(udf_target)
+        if joliet_path is not None:
+            self._check_joliet_destination(self._normalize_joliet_path(joliet_path))
+
         # Checks complete, we can go on to make the symlink.
 
         num_bytes_to_add = 0
@@ -5651,17 +5666,11 @@ class PyCdlib:
 
             udf_symlink_path_bytes = utils.normpath(udf_symlink_path)
 
-            # We specifically do *not* normalize udf_target here, since that
-            # potentially changes the meaning of what the user wanted.
-
             (udf_name, udf_parent) = self._udf_name_and_parent_from_path(udf_symlink_path_bytes)
             file_ident = udfmod.UDFFileIdentifierDescriptor()
             file_ident.new(False, False, udf_name, udf_parent)
             num_new_extents = udf_parent.add_file_ident_desc(file_ident, self.logical_block_size)
             num_bytes_to_add += num_new_extents * self.logical_block_size
-
-            # Generate the bytearry representing the symlink.
-            symlink_bytearray = udfmod.symlink_to_bytes(udf_target)
 
             file_entry = udfmod.UDFFileEntry()
             file_entry.new(len(symlink_bytearray), 'symlink', udf_parent,
